@@ -564,8 +564,8 @@ def outcomes_by_case(stmts, cases, atom, facts=None, on_node=None, truthy=None):
                     val = None
                 else:
                     val = ev(rv, last[1])
-                    if val is UNK:
-                        val = src(rv)
+                    if val is UNK or isinstance(val, (tuple, frozenset)):
+                        val = src(rv)          # displays are reported by their source text
                 outs.add(('return', val))
             else:
                 outs.add((kind, None))
